@@ -237,13 +237,17 @@ class C01(Property):
                 out.append(Finding("model", c, "no verdict from the declarative grammar: %s" % (mc,)))
                 continue
             verdict, oper = mc[1], mc[2]
-            if len(mc) > 3 and mc[3] in ("flat_ok", "chain_ok", "tree_ok"):
-                k3 = "theorem_applies(%s)" % mc[3]
+            if len(mc) > 3 and mc[3].rstrip("+") in ("flat_ok", "chain_ok", "tree_ok"):
+                # `+`: command names are plain (non-empty, no leading dash), so the converse theorem applies as well
+                k3 = "theorem_applies(%s)" % mc[3].rstrip("+")
                 dist[k3] = dist.get(k3, 0) + 1
                 if verdict.startswith("ACCEPT"):
                     dist["accepted_under_theorem"] = dist.get("accepted_under_theorem", 0) + 1
-                if verdict.startswith("REJECT") and mc[3] == "flat_ok":
+                if verdict.startswith("REJECT") and (mc[3] == "flat_ok" or mc[3].endswith("+")):
                     dist["rejected_under_theorem"] = dist.get("rejected_under_theorem", 0) + 1
+                    if oper.split(" ", 1)[0] == "OK":
+                        out.append(Finding("model", c, "the extracted model contradicts C01_tree_complete: rejected by the grammar, "
+                                                       "parsed by the evaluator model: %s" % oper[:200]))
             vk = verdict.split(" ", 1)[0]
             dist[vk] = dist.get(vk, 0) + 1
             roles[c.tags["role"] + ":" + vk] = roles.get(c.tags["role"] + ":" + vk, 0) + 1
